@@ -388,6 +388,11 @@ var consPool = []consSpec{
 	// regex bodies stay inside what the docs show: no ',' ';' or routing characters
 	{c: cons{Kind: "regex", Args: []string{`^[0-9]{4}$`}}, good: []string{"2022", "0001"}, bad: []string{"22", "abcd", "20222", "202x"}},
 	{c: cons{Kind: "even"}, good: []string{"ab", "abcd", "12"}, bad: []string{"a", "abc", "12345"}},
+	// a '?' inside the constraint's data (regex quantifier, argument of a custom constraint) is
+	// data: it says nothing about the parameter being optional
+	{c: cons{Kind: "regex", Args: []string{`^v[0-9][0-9]?$`}}, good: []string{"v1", "v12", "v07"}, bad: []string{"v", "v123", "x1", "1v"}},
+	{c: cons{Kind: "regex", Args: []string{`^ab?c$`}}, good: []string{"ac", "abc"}, bad: []string{"abbc", "a", "abcd"}},
+	{c: cons{Kind: "even", Args: []string{"a?"}}, good: []string{"ab", "abcd", "12"}, bad: []string{"a", "abc", "12345"}},
 	// letter-case sensitive constraints: the value is judged as the client spelled it
 	{c: cons{Kind: "regex", Args: []string{`^[a-z]{2}$`}}, good: []string{"ab", "xy"}, bad: []string{"AB", "Ab", "aB", "a1", "abc"}},
 	{c: cons{Kind: "lower"}, good: []string{"ab", "x1", "news"}, bad: []string{"AB", "News", "xY"}},
